@@ -288,3 +288,5 @@ def run(ctx):
     _b.check_predicates(ctx, 'C02.RP', 'C02')
     from .. import boundaries as _b
     _b.check_updates(ctx, 'C02.RU', 'C02')
+    from .. import boundaries as _b
+    _b.check_counts(ctx, 'C02.RQ', 'C02')
